@@ -20,6 +20,7 @@ preemption bound (a preemption = switching away from a worker that could have co
 
 Nothing here decides what a violation is; a hung worker raises `SchedBroken` (the check exits 2).
 """
+import _thread
 import sys
 import threading
 
@@ -166,7 +167,12 @@ class ILock:
 class Worker:
     def __init__(self, sched, idx, fn):
         self.sched, self.idx, self.fn = sched, idx, fn
-        self.go = threading.Semaphore(0)
+        # binary batons (raw locks, initially held): `go` is released by the scheduler to let this worker
+        # run up to its next yield point, `back` is released by the worker when it has got there
+        self.go = _thread.allocate_lock()
+        self.go.acquire()
+        self.back = _thread.allocate_lock()
+        self.back.acquire()
         self.state = 'new'        # new | running | parked | done
         self.frame = None         # innermost frame at the current yield point
         self.blocked_on = None
@@ -200,7 +206,7 @@ class Worker:
             self.state = 'done'
             self.frame = None
             sched.by_ident.pop(threading.get_ident(), None)
-            sched.back.release()
+            self.back.release()
 
     def park(self, frame):
         sched = self.sched
@@ -208,7 +214,7 @@ class Worker:
             raise _Abort()
         self.frame = frame
         self.state = 'parked'
-        sched.back.release()
+        self.back.release()
         self.go.acquire()
         self.state = 'running'
         if sched.abort:
@@ -238,7 +244,6 @@ class Scheduler:
         self.max_steps = max_steps
         self.by_ident = {}
         self.workers = []
-        self.back = threading.Semaphore(0)
         self.abort = False
         self.locks = []
 
@@ -305,7 +310,7 @@ class Scheduler:
                 w = self.workers[t]
                 w.steps += 1
                 w.go.release()
-                if not self.back.acquire(timeout=self.timeout):
+                if not w.back.acquire(timeout=self.timeout):
                     raise SchedBroken(f'worker {t} did not reach a yield point within {self.timeout}s')
                 cur = t
                 if observe is not None:
@@ -328,9 +333,6 @@ class Scheduler:
             w.thread.join(self.timeout)
             if w.thread.is_alive():
                 raise SchedBroken(f'worker {w.idx} could not be unwound')
-        # drain the baton semaphore (each unwound worker released it once)
-        while self.back.acquire(blocking=False):
-            pass
         for w in self.workers:
             w.frame = None
         if _MON is not None:
